@@ -154,6 +154,17 @@ pub struct Plan {
     pub legal: Option<IoPlan>,
     /// T1: bytes that follow the class on the medium (the reader must not touch them)
     pub tail: u16,
+    /// T1: bytes that precede the class on the medium and were consumed before the read starts (an earlier record of the
+    /// same stream, a container header): the reader starts at this offset and must neither touch them nor take its
+    /// absolute positions for offsets inside the class (missed seeded change C01-12)
+    #[serde(default)]
+    pub head: u16,
+    /// attrition: this many reads of the target input that FAIL (the medium ends / answers with an error at evenly
+    /// spread offsets) on one thread, then the undamaged bytes once more - which must read as at T0. State that a
+    /// failed read leaves behind per failure (a counter not wound back, a pooled buffer not returned) only shows after
+    /// many failures (missed seeded change C01-10: 65 of them)
+    #[serde(default)]
+    pub attrition: u16,
     /// T2: legal schedule + faults
     pub faulty: Option<IoPlan>,
     /// what the faults were aimed at when they were drawn (information; feeds the probes)
@@ -654,11 +665,28 @@ impl Engine for C01 {
         // the fault target must have an offset map: prefer an encoded input
         let target = if !layouts.is_empty() { raw_input as usize + w.usize(layouts.len()) } else { 0 };
         debug_assert!(target < n_inputs);
-        let mut p = Plan { origin, class_hex: hex(&pristine), raw_input, layouts, target, legal: None, tail: 0, faulty: None, aims: vec![] };
+        let mut p = Plan { origin, class_hex: hex(&pristine), raw_input, layouts, target, legal: None, tail: 0, head: 0, attrition: 0, faulty: None, aims: vec![] };
         if s.chance(75) {
             p.legal = Some(IoPlan::gen_legal(&mut s));
             if s.chance(50) {
                 p.tail = s.range(1, 24) as u16;
+            }
+        }
+        {
+            let mut a = rng.split("attrition");
+            if a.chance(3) {
+                p.attrition = a.range(70, 260) as u16;
+            }
+        }
+        {
+            let mut h = rng.split("head");
+            if p.legal.is_some() && h.chance(40) {
+                p.head = match h.below(4) {
+                    0 => 1,
+                    1 => h.range(2, 16) as u16,
+                    2 => h.range(17, 600) as u16,
+                    _ => pristine.len().min(60_000) as u16, // as if the same class had been read just before
+                };
             }
         }
         if f.chance(60) {
@@ -744,7 +772,16 @@ impl Engine for C01 {
         if let Some(io) = &p.legal {
             let io = IoPlan { faults: vec![], ..io.clone() };
             st.tier("T1");
-            let mut medium = tb.clone();
+            let head = p.head as usize;
+            let mut medium: Vec<u8> = (0..head).map(|i| 0x5A ^ (i as u8).wrapping_mul(29)).collect();
+            if head > 0 && (head == tb.len() || head % 3 == 0) {
+                // the preceding record is the class itself (a reader that jumps back too far lands in a well-formed twin)
+                medium = tb.iter().cycle().take(head).copied().collect();
+            }
+            medium.extend_from_slice(tb);
+            if head > 0 {
+                st.probe("t1.head_bytes");
+            }
             for i in 0..p.tail {
                 medium.push(0xCA ^ (i as u8).wrapping_mul(37));
             }
@@ -752,6 +789,7 @@ impl Engine for C01 {
                 st.probe("t1.tail_bytes");
             }
             let mut src = SimReader::new(&medium, &io);
+            src.start_at(head as u64);
             let o = read_real(&mut src);
             st.io(&src.stats, src.log);
             obs.u64(o.kind());
@@ -770,7 +808,12 @@ impl Engine for C01 {
                 (a, b) => out.push(Violation::new("T1", "schedule-dependence", "read.result", format!("plain medium gives result kind {}, schedule {:?} gives kind {}{}", a.kind(), io, b.kind(), if let Out::Refused(_, full) = b { format!(": {full}") } else { String::new() }))),
             }
             if let Out::Ok(_) = &o {
-                let len = tb.len() as u64;
+                let len = head as u64 + tb.len() as u64;
+                if let Some(m) = src.stats.min_read_pos {
+                    if m < head as u64 {
+                        out.push(Violation::new("T1", "stream-position", "read.before-start", format!("a read started at offset {m}, the class starts at offset {head}")));
+                    }
+                }
                 if src.position() != len {
                     out.push(Violation::new("T1", "stream-position", "read.position", format!("position {} after Ok, class length {} ({} bytes follow the class)", src.position(), len, p.tail)));
                 }
@@ -868,6 +911,38 @@ impl Engine for C01 {
                 out.push(Violation::new("T2", "residue-after-heal", "read", "re-reading the undamaged bytes differs from the first plain read"));
             }
         }
+        // ---------------- attrition: many failing reads on this thread, then the undamaged bytes
+        if p.attrition > 0 && !tb.is_empty() {
+            st.tier("T2");
+            st.probe("attrition_runs");
+            st.nontrivial = true;
+            let n = p.attrition as u64;
+            let mut failed = 0u64;
+            for k in 0..n {
+                let at = (k + 1) * tb.len() as u64 / (n + 1);
+                let io = IoPlan { faults: vec![if k % 2 == 0 { Fault::Eof { at } } else { Fault::EioAtOffset { off: at } }], ..IoPlan::plain() };
+                let mut src = SimReader::new(tb, &io);
+                match read_real(&mut src) {
+                    Out::Panic(pm) => {
+                        out.push(Violation::new("T2", "panic", format!("read:{}", panic_id(&pm)), pm));
+                        break;
+                    }
+                    Out::Refused(..) => failed += 1,
+                    _ => {}
+                }
+            }
+            st.probe_n("attrition_failed_reads", failed);
+            st.events += n;
+            st.sched.u64(0xA77 ^ n);
+            let again = read_real(&mut Cursor::new(&tb[..]));
+            let same = match (&t0[tj], &again) {
+                (Out::Ok(a), Out::Ok(b)) => a == b,
+                (a, b) => a.kind() == b.kind(),
+            };
+            if !same {
+                out.push(Violation::new("T2", "residue-after-heal", "read.after-many-failures", format!("after {failed} failed reads on this thread the undamaged bytes no longer read as before{}", if let Out::Refused(_, full) = &again { format!(": {full}") } else { String::new() })));
+            }
+        }
         st.obs = obs;
         // one violation per identity and run
         let mut seen = BTreeSet::new();
@@ -910,6 +985,7 @@ impl Engine for C01 {
             let mut q = p.clone();
             q.legal = None;
             q.tail = 0;
+            q.head = 0;
             c.push(q);
         }
         if p.faulty.is_some() {
@@ -951,6 +1027,26 @@ impl Engine for C01 {
             if p.tail > 0 {
                 let mut q = p.clone();
                 q.tail = 0;
+                c.push(q);
+            }
+            if p.head > 0 {
+                let mut q = p.clone();
+                q.head = 0;
+                c.push(q);
+                if p.head > 1 {
+                    let mut q = p.clone();
+                    q.head = 1;
+                    c.push(q);
+                }
+            }
+        }
+        if p.attrition > 0 {
+            let mut q = p.clone();
+            q.attrition = 0;
+            c.push(q);
+            if p.attrition > 70 {
+                let mut q = p.clone();
+                q.attrition = 70.max(p.attrition / 2);
                 c.push(q);
             }
         }
